@@ -5,9 +5,9 @@ import (
 	"encoding/json"
 	"fmt"
 
+	"github.com/gogo/protobuf/proto"
 	pb "github.com/ipfs/boxo/ipld/unixfs/pb"
 	"github.com/ipfs/go-cid"
-	"github.com/gogo/protobuf/proto"
 	"github.com/ipld/go-ipld-prime/adl"
 	"github.com/ipld/go-ipld-prime/datamodel"
 	"github.com/ipld/go-ipld-prime/fluent/qp"
@@ -39,7 +39,7 @@ type c14Case struct {
 	Label  string `json:"label"`
 	Data   []byte `json:"data"` // nil = absent
 	NoData bool   `json:"no_data"`
-	Links  int    `json:"links"` // 0, 1, 3
+	Links  int    `json:"links"`  // 0, 1, 3
 	Expect string `json:"expect"` // linkmap | bytes | map | error | no-panic
 	Via    string `json:"via"`    // built | decoded
 }
@@ -196,6 +196,21 @@ func c14Cases(quick bool) []c14Case {
 	add("empty-data", []byte{}, false, "linkmap", all)
 	for i, g := range [][]byte{{0xff, 0xff}, {0x08}, {0x0a, 0x01, 0x00}, {0x08, 0x02, 0x12, 0x05, 'x'}, {0x12, 0x01, 'x'}, {0x08, 0x80}} {
 		add(fmt.Sprintf("garbage-%d", i), g, false, "linkmap", all)
+	}
+	// well-formed outer protobuf that is rejected below the field loop
+	for i, g := range [][]byte{
+		{0x08, 0x02, 0x08, 0x02},                         // DataType twice
+		{0x08, 0x02, 0x18, 0x01, 0x18, 0x02},             // FileSize twice
+		{0x08, 0x05, 0x30, 0x08, 0x30, 0x08},             // Fanout twice
+		{0x08, 0x02, 0x22, 0x01, 0x01, 0x22, 0x01, 0x01}, // two packed block-size runs
+		{0x08, 0x02, 0x22, 0x01, 0x80},                   // packed run with a truncated varint
+		{0x08, 0x02, 0x20, 0x01, 0x22, 0x01, 0x01},       // unpacked then packed block sizes
+		{0x08, 0x02, 0x42, 0x01, 0x08},                   // mtime: seconds tag without value
+		{0x08, 0x02, 0x42, 0x02, 0x15, 0x00},             // mtime: truncated fixed32
+		{0x08, 0x02, 0x38, 0x80, 0x80, 0x80, 0x80, 0x10}, // mode wider than 32 bits
+		{0x08, 0x02, 0x12, 0x05, 'x'},                    // data length beyond the message
+	} {
+		add(fmt.Sprintf("rejected-inner-%d", i), g, false, "linkmap", all)
 	}
 	add("symlink", fsData(4, func(d *pb.Data) { d.Data = []byte("../t") }), false, "linkmap", all)
 	add("metadata", fsData(3, nil), false, "linkmap", all)
